@@ -89,7 +89,8 @@ func (s *burstyStats[R]) acquirePermits(requestedPermits int, maxWaitTime time.D
 		elapsedPermits := elapsedPeriods * s.periodPermits
 		s.currentPeriod = newCurrentPeriod
 		if s.availablePermits < 0 {
-			s.availablePermits += elapsedPermits
+			// A deficit is paid back by the elapsed periods, but a period never holds more than periodPermits
+			s.availablePermits = min(s.availablePermits+elapsedPermits, s.periodPermits)
 		} else {
 			s.availablePermits = s.periodPermits
 		}
